@@ -115,8 +115,10 @@ def bindOK (wc : WireCodec) (ex : List Bytes) (iss : Issued) (pre : Jar)
     e.2.all fun v =>
       if isDisabled e.1 ex then (bindValues pre e.1).contains v else valueOK wc iss pre e.1 v
 
-/-- the Cookie header the handler reads is nothing but the enumerated cookies -/
-def hdrOK (v : Views) : Bool := v.hdr == cookieHeader v.enum
+/-- the Cookie header the handler reads — in any of its renderings — is nothing but the enumerated
+    cookies (`RequestHeader.RawHeaders()` is not one of them: see docs/C20.md, scope) -/
+def hdrOK (v : Views) : Bool :=
+  v.hdr == cookieHeader v.enum && v.more.all fun h => h == cookieHeader v.enum
 
 /-- request direction: first violated clause -/
 def reqViolation (wc : WireCodec) (ex : List Bytes) (iss : Issued) (pre : Jar)
@@ -179,34 +181,137 @@ def issuedBy (ex : List Bytes) : List RCookie → List WCookie → Issued
     if isDisabled c.key ex then issuedBy ex cs ws else (w.value, c.pvalue) :: issuedBy ex cs ws
   | _, _ => []
 
+/-! ### `Config.Next`, failing code, code that is not behind the middleware
+
+The sentence speaks of handlers BEHIND the middleware. Three things follow for a whole exchange:
+
+  * `cfg.Next(c)` said skip: for this request the middleware is not there. Nothing is decrypted and
+    nothing is encrypted: every view shows the client's cookies as they arrived, every response
+    cookie leaves as it was set.
+  * a cookie a handler behind the middleware set must be ciphertext on the wire however that
+    handler ended – `return nil`, `return err` (error handler), or a panic that a recover
+    middleware in front turns into a response. It is judged at the point where control leaves the
+    middleware (`mid`): the cookies there are the ciphertext of a PREFIX of what the handlers
+    set; the prefix may be proper only if the Encryptor could not work (invalid key / a custom
+    Encryptor that fails), and then nothing of the rest is left at all.
+  * cookies written later by code that is NOT behind it (middleware registered in front, after its
+    own `c.Next()`; the app's ErrorHandler) are outside the sentence; the only demand is that such a
+    write leaves what the middleware produced alone: every cookie on the wire is one of the
+    middleware's or one of those late writes, whole.
+-/
+
+/-- `cfg.Next(c)` said skip: every view is the client's own cookies -/
+def skipReqViolation (pre : Jar) (v : Views) : Option String :=
+  if v.enum != pre then some "next-skip-request-changed"
+  else if !(v.look.all fun e => e.2 == lookup pre e.1) then some "next-skip-lookup-changed"
+  else if !(v.bind.all fun e => e.2 == bindValues pre e.1) then some "next-skip-bind-changed"
+  else if !hdrOK v then some "cookie-header-view"
+  else none
+
+/-- request direction with `Config.Next` -/
+def reqViolationAt (skip : Bool) (wc : WireCodec) (ex : List Bytes) (iss : Issued) (pre : Jar)
+    (v : Views) : Option String :=
+  if skip then skipReqViolation pre v else reqViolation wc ex iss pre v
+
+/-- stored key and Set-Cookie text of every cookie unchanged, in order -/
+def passThrough (pre : List RCookie) (mid : List WCookie) : Bool :=
+  mid.map (fun w => (w.key, w.raw)) == pre.map (fun c => (c.key, c.raw))
+
+/-- what the oracle is told about the configuration (besides `Except` and the wire format) -/
+structure Told where
+  keyValid : Bool                 -- the key text decodes to 16/24/32 bytes
+  encFails : Bytes → Bool         -- values on which the configured (custom) Encryptor fails
+  decPanics : Bytes → Bool        -- texts on which the configured (custom) Decryptor panics
+
+/-- the response loop did not get through: allowed only when the Encryptor could not work for the
+    cookie it stopped at -/
+def stopExcused (t : Told) (pre : List RCookie) (n : Nat) : Bool :=
+  !t.keyValid || (match pre[n]? with
+    | some c => t.encFails c.pvalue
+    | none => false)
+
+/-- One exchange, request and response, as observed (`o`): first violated clause.
+    `issBefore` = issued before this exchange (requests are judged against it), `issAfter` = including
+    what this exchange issued. -/
+def exchangeViolation (wc : WireCodec) (ex : List Bytes) (t : Told) (issBefore issAfter : Issued)
+    (x : Exchange) (o : Outcome) : Option String :=
+  let reqV : Option String := match o.views with
+    | some v => reqViolationAt x.skip wc ex issBefore x.jar v
+    | none =>
+      -- no handler ran: only a panicking Decryptor on one of the request's cookies explains that
+      if !x.skip && (x.jar.any fun e => !isDisabled e.1 ex && t.decPanics e.2) then none
+      else some "handler-not-reached"
+  match reqV with
+  | some c => some c
+  | none =>
+    match o.wire with
+    | none =>
+      -- a panic reached the server loop: nothing is sent. It must have a reason: a handler behind
+      -- the middleware panicked, a custom Decryptor panicked, or the Encryptor could not work.
+      if x.recover then some "panic-unexplained"
+      else if x.flow == Flow.panic || o.views.isNone then none
+      else if !x.skip && o.mid.length < x.cookies.length then
+        (if stopExcused t x.cookies o.mid.length then none else some "panic-with-valid-key")
+      else some "panic-unexplained"
+    | some ws =>
+      -- something is sent: judged where the middleware is left …
+      let respV : Option String :=
+        if x.skip then
+          (if passThrough x.cookies o.mid then none else some "next-skip-response-changed")
+        else if o.views.isNone then
+          -- nothing behind the middleware ran; what is there was set in front of it
+          (if passThrough x.opre o.mid then none else some "response-before-handler-changed")
+        else if x.cookies.length < o.mid.length then some "response-cookie-count"
+        else if !respAllOK wc ex issAfter (x.cookies.take o.mid.length) o.mid then
+          some "client-sees-non-ciphertext-or-changed-cookie"
+        else if o.mid.length < x.cookies.length && !stopExcused t x.cookies o.mid.length then
+          some "panic-with-valid-key"
+        else none
+      match respV with
+      | some c => some c
+      | none =>
+        -- … and every cookie on the wire is one of those or a late write, whole
+        if ws.all fun w => o.mid.contains w || x.late.any fun l => l.w == w then none
+        else some "late-write-damaged-cookie"
+
 /-! ### histories -/
 
-/-- one request/response exchange: what arrives, which names the handler looks up, which cookies it
-    sets, and the randomness the encryptions draw -/
+/-- one request/response exchange of a history: whether `cfg.Next` skips it, what arrives, which names
+    the handler looks up, which cookies are in the response when the handlers behind are done, and the
+    randomness the encryptions draw. (How the handlers end, and what code in front of the middleware
+    writes afterwards, changes neither what the handlers see nor what the middleware issues: see
+    `serve`, `exchangeViolation`.) -/
 structure Step where
+  skip : Bool := false
   jar : Jar
   ks : List Bytes
   cookies : List RCookie
   nonces : List Bytes
 
-/-- the issued log after a step (nothing is added when the response panics) -/
+/-- the response cookies where the middleware is left -/
+def stepMid (C : Codec) (ex : List Bytes) (s : Step) : List WCookie :=
+  if s.skip then s.cookies.map keep else (encryptRun C ex s.nonces s.cookies).1
+
+/-- the issued log after a step: what the response loop put into the response — also when it was
+    stopped by a failing Encryptor (a recover middleware in front may still send that part);
+    nothing when the step is skipped -/
 def nextLog (C : Codec) (ex : List Bytes) (log : Issued) (s : Step) : Issued :=
-  match encryptJar C ex s.nonces s.cookies with
-  | some ws => log ++ issuedBy ex s.cookies ws
-  | none => log
+  if s.skip then log else log ++ issuedBy ex s.cookies (encryptRun C ex s.nonces s.cookies).1
 
 /-- every step of a history, judged by the oracle against the log issued BEFORE it (requests) and
     including it (responses) -/
 def historyViolation (C : Codec) (wc : WireCodec) (ex : List Bytes) : Issued → List Step → Option String
   | _, [] => none
   | log, s :: rest =>
-    match reqViolation wc ex log s.jar (modelViews C ex s.jar s.ks) with
+    match reqViolationAt s.skip wc ex log s.jar (mwViews s.skip C ex s.jar s.ks) with
     | some c => some c
     | none =>
-      match encryptJar C ex s.nonces s.cookies with
-      | none => historyViolation C wc ex log rest
-      | some ws =>
-        if !respAllOK wc ex (log ++ issuedBy ex s.cookies ws) s.cookies ws then some "response"
-        else historyViolation C wc ex (log ++ issuedBy ex s.cookies ws) rest
+      if s.skip then
+        if !passThrough s.cookies (stepMid C ex s) then some "next-skip-response-changed"
+        else historyViolation C wc ex log rest
+      else
+        if !respAllOK wc ex (nextLog C ex log s) (s.cookies.take (stepMid C ex s).length) (stepMid C ex s) then
+          some "response"
+        else historyViolation C wc ex (nextLog C ex log s) rest
 
 end C20
